@@ -16,11 +16,15 @@ from ..linform import GenericBoundsGame, NonLinear
 TOL = 1e-11
 
 
-def bounds_game(n: int, lo, up, grand):
-    """Real incomplete game: empty and grand coalition known, every other coalition unknown with the given bounds."""
+def bounds_game(n: int, lo, up, grand, known_singletons: bool = False):
+    """Real incomplete game: empty and grand coalition known (optionally the singletons too, value = their lower bound), every other
+    coalition unknown with the given bounds."""
     from incomplete_cooperative.game import IncompleteCooperativeGame
     g = IncompleteCooperativeGame(n)
     g.set_value(grand, coal((1 << n) - 1))
+    if known_singletons:
+        for i in range(n):
+            g.set_value(lo[1 << i], coal(1 << i))
     g.set_lower_bounds(np.array(lo, dtype=np.float64))
     g.set_upper_bounds(np.array(up, dtype=np.float64))
     return g
@@ -31,12 +35,16 @@ def expected(n: int, lo, up) -> Fraction:
     return sum((Fraction(up[s]) - Fraction(lo[s])) / math.comb(n, A.popcount(s)) for s in range(1, N))
 
 
-def check_vector(st: Stats, n: int, lo, up, grand, tag: str, vertices: bool) -> None:
+def check_vector(st: Stats, n: int, lo, up, grand, tag: str, vertices: bool, known_singletons: bool = False) -> None:
+    if known_singletons:
+        up = list(up)
+        for i in range(n):
+            up[1 << i] = lo[1 << i]
     from incomplete_cooperative.exploitability import MaxGainGame, compute_exploitability
     from incomplete_cooperative.shapley import compute_shapley_value_for_player
-    doc = {"n": n, "lower": list(lo), "upper": list(up), "grand": grand, "vertices": vertices}
+    doc = {"n": n, "lower": list(lo), "upper": list(up), "grand": grand, "vertices": vertices, "known_singletons": known_singletons}
     try:
-        g = bounds_game(n, lo, up, grand)
+        g = bounds_game(n, lo, up, grand, known_singletons)
         got = float(compute_exploitability(g))
     except Exception as e:  # noqa: BLE001
         st.violation(f"[expl n={n} {tag}] raised {type(e).__name__}: {e}", **doc)
@@ -56,8 +64,11 @@ def check_vector(st: Stats, n: int, lo, up, grand, tag: str, vertices: bool) -> 
     if ordered and got < -tol:
         st.violation(f"[expl n={n} {tag}] negative exploitability {got} although lower <= upper everywhere", **doc)
         return
-    if ordered and degenerate != (abs(got) <= tol):
-        st.violation(f"[expl n={n} {tag}] exploitability {got} but all intervals degenerate = {degenerate}", **doc)
+    if ordered and degenerate and abs(got) > tol:
+        st.violation(f"[expl n={n} {tag}] exploitability {got} although all intervals are degenerate", **doc)
+        return
+    if ordered and not degenerate and float(want) > 4 * tol and abs(got) <= tol:
+        st.violation(f"[expl n={n} {tag}] exploitability {got} (zero) although some interval is not degenerate (weighted gap {float(want)})", **doc)
         return
     if not degenerate:
         st.nontrivial += 1
@@ -160,7 +171,12 @@ def lattice3_unit(u) -> Stats:
             off = [A.BIG * sum((1, -1, 2)[i] for i in range(3) if s >> i & 1) for s in range(8)]
             check_vector(st, n, [a + o for a, o in zip(lo, off)], [a + o for a, o in zip(up, off)], grand + off[7], f"lattice#{m}+big", False)
             check_vector(st, n, [a * A.TINY for a in lo], [a * A.TINY for a in up], grand * A.TINY, f"lattice#{m}*tiny", False)
-            st.states += 2
+            huge = [float(2 ** 33) * sum((1, 1, 2)[i] for i in range(3) if s >> i & 1) for s in range(8)]
+            check_vector(st, n, [a + o for a, o in zip(lo, huge)], [a + o for a, o in zip(up, huge)], grand + huge[7], f"lattice#{m}+huge", False)
+            st.states += 3
+        if m % 4 == 1:          # exactly the minimal information known (singletons too), prescribed intervals elsewhere
+            check_vector(st, n, lo, up, grand, f"lattice#{m}/singletons-known", False, known_singletons=True)
+            st.states += 1
         if st.nviol >= 3:
             break
         if m == 1234:
@@ -169,14 +185,15 @@ def lattice3_unit(u) -> Stats:
 
 
 def tables_unit(u) -> Stats:
-    """Naturally occurring bound vectors: canonical tables of the real computer, n = 3, 4."""
-    _, n, v, max_unknown = u
+    """Naturally occurring bound vectors: canonical tables of the real computers, n = 3, 4."""
+    _, n, v, max_unknown = u[:4]
+    comp = u[4] if len(u) > 4 else "superadditive_cached"
     st = Stats()
     for K in A.knowledge_sets(n):
         unknown = (1 << n) - bin(K).count("1")
         if unknown > max_unknown:
             continue
-        t = read(run_history(n, "superadditive_cached", v, [("reset", K), ("compute",)]))
+        t = read(run_history(n, comp, v, [("reset", K), ("compute",)]))
         check_vector(st, n, t.lo.tolist(), t.up.tolist(), v[-1], f"table K={A.kmask_ids(K)}", True)
         st.states += 1
         if st.nviol >= 3:
@@ -240,6 +257,10 @@ def run(run: Run) -> None:
     for i, g in enumerate(reps):
         if i % (45 if quick else 12) == seed % (45 if quick else 12):
             us.append(("tables", 4, A.shifted(g, A.ADD4), 4 if quick else 6))
+    sam3, sam4 = A.a3_sam(), A.a4_sam()
+    for k in range(4 if quick else 16):
+        us.append(("tables", 3, sam3[(29 * (seed + 1) + 41 * k) % len(sam3)], 3, ("sam_apx_1", "sam_apx_10")[k % 2]))
+    us.append(("tables", 4, sam4[(13 * (seed + 1)) % len(sam4)], 10 if not quick else 10, "sam_apx_1"))
     run.rule = ("(i) real compute_exploitability executed on indeterminate bounds for each n: exact coefficient +-1/C(n,|S|) of every upper/lower "
                 "bound, grand coalition cancels; (ii) every unit bound vector (a basis) through the real float path; (iii) all 4096 three-player bound "
                 "vectors with (l,u) in {(0,0),(0,1),(-1,1),(1,1)} per coalition and canonical tables of the real computer (n=3,4): value == weighted gap, "
@@ -259,6 +280,6 @@ def replay(doc: dict):
     elif doc.get("large"):
         st = large_unit(("large", doc["n"]))
     else:
-        check_vector(st, doc["n"], doc["lower"], doc["upper"], doc["grand"], "replay", bool(doc.get("vertices")))
+        check_vector(st, doc["n"], doc["lower"], doc["upper"], doc["grand"], "replay", bool(doc.get("vertices")), bool(doc.get("known_singletons")))
     msgs = [v["message"] for v in st.violations]
     return bool(msgs), f"replay n={doc['n']}: " + ("; ".join(msgs) if msgs else "exploitability identity holds on this input")
